@@ -57,3 +57,11 @@ func (ticks *TicksSinceStart) VerifC08Commits() map[int][]plumbing.Hash {
 	}
 	return r
 }
+
+// VerifC08RegistrySize returns the number of ticks and the number of commits of the shared tick -> hashes registry.
+func (ticks *TicksSinceStart) VerifC08RegistrySize() (nticks, ncommits int) {
+	for _, v := range ticks.commits {
+		ncommits += len(v)
+	}
+	return len(ticks.commits), ncommits
+}
